@@ -58,11 +58,11 @@ MUTATIONS = [
      "        } else if record.tree.as_str() == NAMING_INSTANCE_TABLE.as_str() {\n            let req = RaftApplyDataRequest::LoadSnapshotRecord(record);\n            self.naming_actor.send(req).await??;\n",
      "", "closure_breaks"),
     ("build_snapshot skips a component", "src/raft/filestore/raftdata.rs",
-     "        self.mcp_manager\n            .send(RaftApplyDataRequest::BuildSnapshot(writer.clone()))\n            .await??;\n", "", "refuse"),
+     "        self.mcp_manager\n            .send(RaftApplyDataRequest::BuildSnapshot(writer.clone()))\n            .await??;\n", "", "refused"),
     ("component writes a new tree name", "src/namespace/mod.rs", "tree: NAMESPACE_TREE_NAME.clone(),", "tree: USER_TREE_NAME.clone(),",
      "closure_breaks"),
     ("load error swallowed", "src/raft/filestore/raftdata.rs", "self.table.send(req).await??;\n        } else if record.tree.as_str() == CACHE_TREE_NAME",
-     "self.table.send(req).await.ok();\n        } else if record.tree.as_str() == CACHE_TREE_NAME", "refuse"),
+     "self.table.send(req).await.ok();\n        } else if record.tree.as_str() == CACHE_TREE_NAME", "refused"),
 ]
 
 
@@ -145,7 +145,7 @@ def pb_fields(b):
 def frame_to_record(frame):
     ln, i = pb_varint(frame, 0)
     f = pb_fields(frame[i:i + ln])
-    return [bytes(f.get(1, b"")).decode("utf-8", "replace"), list(f.get(2, b"")), list(f.get(3, b""))]
+    return [bytes(f.get(1, b"")).decode("utf-8", "replace"), list(f.get(4, b"")), list(f.get(5, b""))]   # LogSnapshotItem: tree=1, key=4, value=5
 
 
 # ------------------------------------------------------------------ generators
@@ -189,7 +189,7 @@ def gen_restart_case(rng, g, samples, tier, plant):
         reqs = [q for q in g.sequence(n) if c07.variant_of(q) not in ("NodeAddr", "Members")]
         # deletes matter for resurrection: remove a few earlier keys
         phases.append({"reqs": reqs})
-    case = {"threshold": threshold, "phases": phases, "plants": []}
+    case = {"threshold": threshold, "phases": phases, "plants": [], "pace": rng.random() < 0.75}
     if plant:
         # a partial snapshot_<next id> that is longer than what the next compaction will write:
         # extra records = a user that never existed and a config that is not served
@@ -197,6 +197,50 @@ def gen_restart_case(rng, g, samples, tier, plant):
                  ["T_CONFIG", "67686f73740267", "0a05676f6e6521"]]
         case["plants"].append({"before_phase": 1, "kind": "copy_last_plus", "extra": extra})
     return case
+
+
+TABLES_IN_USE = ("T_USER", "T_CACHE")
+SNAP_TREE_COMP = {"T_CONFIG": "config", "T_SEQUENCE": "sequences", "T_USER": "table", "T_CACHE": "table",
+                  "T_NAMESPACE": "namespace", "T_MCP_SERVER": "mcp", "T_MCP_TOOL_SPEC": "mcp",
+                  "T_NAMING_INSTANCE": "naming", "T_DIRECT_CACHE": "cache"}
+
+
+def split_dump(d):
+    """per-component views of a node dump; tables that no API serves go to 'out_of_scope'"""
+    parts = {k: [d.get(k)] for k in ("config", "mcp", "naming", "cache", "index")}
+    seqs = d.get("sequences") or []
+    parts["sequences"] = [[x for x in seqs if x[0] != "SEQ_CONFIG"]]
+    parts["config"].append([x for x in seqs if x[0] == "SEQ_CONFIG"])
+    parts["namespace"] = [(d.get("namespace") or {}).get("sorted")]
+    t = d.get("table") or {}
+    # an empty table and an absent table answer every query identically: drop empty ones
+    parts["table"] = [[x for x in t.get("tables", []) if x.get("name") in TABLES_IN_USE and x.get("rows")]]
+    parts["out_of_scope"] = [[x for x in t.get("tables", []) if x.get("name") not in TABLES_IN_USE],
+                             [n for n in t.get("names", []) if n not in TABLES_IN_USE]]
+    for r in d.get("snapshot", []):
+        tree = r.get("tree")
+        comp = SNAP_TREE_COMP.get(tree, "out_of_scope")
+        if tree == "T_SEQUENCE" and r.get("key") == "5345515f434f4e464947":
+            comp = "config"
+        parts[comp].append(r)
+    return parts
+
+
+def classify_restart_diff(comp, a, b, case):
+    """stable key of the known finding that explains a difference in component `comp`, or 'none'"""
+    ds = json.dumps([a, b])
+    if "ghost" in ds:
+        return "C01:snapshot-stale-tail"
+    racy = not case.get("pace", False)
+    if comp == "cache":
+        return "C01:direct-cache-snapshot-expired"
+    if comp == "mcp":
+        return "C01:mcp-toolspec-roundtrip"
+    if comp == "namespace":
+        return "C01:namespace-already-sync-marker" if "__already_sync" in ds else "C01:weak-namespace-flags-not-restored"
+    if comp in ("sequences", "config") and racy:
+        return "C01:compaction-concurrent-apply"
+    return "none"
 
 
 HEADER = "From RN Require Import SM.Replay RaftLog.SnapFile.\nOpen Scope N_scope.\nOpen Scope string_scope.\n"
@@ -246,7 +290,7 @@ def run(chk, replay=None):
             exprs.append("snap_read %s" % lib.coq_list(r["file"]))
             idx.append(i)
             # the repaired writer: the file is exactly the new image
-            want = [b for f in r["frames"] for b in f]
+            want = list(r["frames"]["header"]) + [b for f in r["frames"]["records"] for b in f]
             if r["file"] != want:
                 mism += 1
                 chk.violation("model != implementation (write_truncate: file is not the new image; %d bytes vs %d)" % (len(r["file"]), len(want)),
@@ -281,7 +325,7 @@ def run(chk, replay=None):
     # ---- B. routing: real load_snapshot vs the generated load_arms -------------------------------------
     rs = lib.harness_run("dispatch", [{"k": "route_samples"}], env=env)[0]
     route_cases = []
-    for tree, key, value in rs.get("samples", []):
+    for name, (tree, key, value) in sorted(rs.get("samples", {}).items()):
         route_cases.append({"k": "route", "tree": tree, "key": key, "value": value})
     seqv = [0, 0, 0, 0, 0, 0, 0, 9]
     route_cases += [{"k": "route", "tree": "T_SEQUENCE", "key": list(b"SEQ_CONFIG"), "value": seqv},
@@ -329,6 +373,8 @@ def run(chk, replay=None):
     r_out = lib.harness_run_parallel("restart", rcases, shards=8, env=env, timeout=2400)
     compactions = 0
     planted = 0
+    out_of_scope = 0
+    diff_count = {}
     var_count = {}
     for c, r in zip(rcases, r_out):
         n_eval += 1
@@ -346,22 +392,20 @@ def run(chk, replay=None):
         for i, ph in enumerate(r["phases"]):
             if i == 0:
                 continue
-            d = ph.get("restart_diff")
-            if d is not None:
-                ds = json.dumps(d)
-                path = d.get("path", "") if isinstance(d, dict) else ""
-                if "ghost" in ds or c["plants"] and ("full-1" in ds):
-                    key = "C01:snapshot-stale-tail"
-                elif path.startswith("/sequences") or "SEQ_CONFIG" in ds:
-                    key = "C01:compaction-concurrent-apply"
-                elif path.startswith("/cache"):
-                    key = "C01:direct-cache-snapshot-expired"
-                elif path.startswith("/namespace") and "__already_sync" in json.dumps(ph.get("start_dump", {}).get("namespace", {})):
-                    key = "C01:namespace-already-sync-marker"
-                else:
-                    key = "none"
-                chk.classify(key, "state served after restart differs from the state served before the stop (phase %d): %s" % (i, ds[:300]),
-                             {"suite": "restart", "case": c, "phase": i, "diff": d})
+            before = split_dump(r["phases"][i - 1]["end_dump"])
+            after = split_dump(ph["start_dump"])
+            for comp in sorted(before):
+                if before[comp] == after[comp]:
+                    continue
+                d = lib.diff_first(before[comp], after[comp])
+                if comp == "out_of_scope":
+                    out_of_scope += 1
+                    continue
+                key = classify_restart_diff(comp, before[comp], after[comp], c)
+                diff_count[comp + ":" + key] = diff_count.get(comp + ":" + key, 0) + 1
+                chk.classify(key, "%s served after the restart differs from %s served before the stop (phase %d, threshold %d, %s): %s"
+                             % (comp, comp, i, c["threshold"], "paced" if c.get("pace") else "racing compaction", d),
+                             {"suite": "restart", "case": c, "phase": i, "component": comp, "diff": d})
 
     if not proofs_ok:
         chk.violation("proof obligations of C01 no longer check: %s" % chk.proof_failure[:300],
@@ -378,7 +422,9 @@ def run(chk, replay=None):
                           {"threshold": rcases[0]["threshold"], "phases": [len(p["reqs"]) for p in rcases[0]["phases"]], "plants": rcases[0]["plants"]} if rcases else None]
     chk.cov["input_distribution"] = {"snapfile_cases": len(sf_cases), "route_cases": len(route_cases), "restart_histories": len(rcases),
                                      "phases_with_catalogued_snapshot": compactions, "planted_partial_snapshots": planted,
-                                     "requests_per_variant": var_count, "model_impl_mismatches": mism}
+                                     "requests_per_variant": var_count, "model_impl_mismatches": mism,
+                                     "restart_differences_by_component_and_key": diff_count,
+                                     "out_of_scope_table_differences_not_judged": out_of_scope}
     chk.assumptions += [
         "C20 framing theorem (chunking invariance of MessageBufReader) in the 1024-byte-block instance: premise of the file-level theorems",
         "component round-trip laws (snapshot -> load_record reproduces an observationally equivalent state) and snap_routed: premises, "
